@@ -295,7 +295,14 @@ def reader_stream(ctx, g, batch, msg_sx, tag, hdr=None, expect_coherent=True):
     ir2 = None
     try:
         ir2 = load_bytes(g, bs)
-        outcome = [0, content.canon_content(content.content_of(g, ir2))]
+        try:
+            outcome = [0, content.canon_content(content.content_of(g, ir2))]
+        except Exception as e:  # noqa: BLE001
+            # load returned something whose public attributes cannot even be read: ill-typed / partially linked
+            probs = safe_coherence(g, ir2)
+            ctx.add("oracle", "reader:incoherent", "load returned an IR that is not coherent: %s (reading its attributes raised %s)" % ("; ".join(probs[:2]), exc_name(g, e)),
+                    {"tag": tag, "file": bs.hex()})
+            return [0, "unreadable"], None, bs
     except ImplTimeout:
         ctx.add("oracle", "reader:hang", "load did not return within the time limit", {"tag": tag, "file": bs.hex()})
         return None
@@ -304,7 +311,7 @@ def reader_stream(ctx, g, batch, msg_sx, tag, hdr=None, expect_coherent=True):
     except Exception as e:  # noqa: BLE001
         outcome = [-1, exc_name(g, e)]
     if ir2 is not None:
-        probs = content.coherence(g, ir2) + content.identity_check(g, ir2)
+        probs = safe_coherence(g, ir2)
         for prob in probs[:3]:
             ctx.add("oracle", "reader:incoherent", "load returned an IR that is not coherent: " + prob, {"tag": tag, "file": bs.hex()})
         if not probs:
@@ -338,6 +345,13 @@ def reader_stream(ctx, g, batch, msg_sx, tag, hdr=None, expect_coherent=True):
                     {"tag": tag, "file": bs.hex(), "impl": short(outcome, 600), "model": short(mo, 600)})
     batch.ask([41, hdr, msg_sx], judge)
     return outcome, ir2, bs
+
+
+def safe_coherence(g, ir):
+    try:
+        return content.coherence(g, ir) + content.identity_check(g, ir)
+    except Exception as e:  # noqa: BLE001
+        return ["the coherence scan itself raised %s: %s" % (exc_name(g, e), str(e)[:100])]
 
 
 def short(x, n=200):
